@@ -68,3 +68,88 @@ def dense_tensor(shape, dt, fam='gauss', salt=0, role='d'):
     rng = rng_for('dense', list(shape), dt, fam, salt, role)
     a = _fill(rng, tuple(shape), fam if fam in ('int', 'int1', 'zero') else 'gauss', DT[dt].is_complex)
     return torch.tensor(a, dtype=DT[dt])
+
+
+# ------------------------------------------------------------------------------------------------ dense families (C01/C02)
+
+def _orth(rng, n, k, cplx=False):
+    """n x k matrix with orthonormal columns (k <= n)"""
+    a = rng.standard_normal((n, k))
+    if cplx:
+        a = a + 1j * rng.standard_normal((n, k))
+    q, _ = np.linalg.qr(a)
+    return q[:, :k]
+
+
+def dense_family(shape, fam, dt, salt=0):
+    """dense array of the given shape from a named family (see DESIGN §3.2); returns a torch tensor of dtype dt"""
+    shape = [int(n) for n in shape]
+    d = len(shape)
+    cplx = DT[dt].is_complex
+    rng = rng_for('densefam', shape, fam, dt, salt)
+    numel = int(np.prod(shape))
+
+    def rank1(vecs):
+        t = np.ones([], dtype=np.complex128 if cplx else np.float64)
+        for v in vecs:
+            t = np.tensordot(t, v, axes=0)
+        return t
+
+    def rvec(n):
+        v = rng.standard_normal(n)
+        if cplx:
+            v = v + 1j * rng.standard_normal(n)
+        return v
+    if fam == 'zero':
+        a = np.zeros(shape)
+    elif fam == 'gauss':
+        a = rng.standard_normal(shape)
+        if cplx:
+            a = a + 1j * rng.standard_normal(shape)
+    elif fam in ('lowrank', 'lowrank_int'):
+        R = [1] + [min(2, int(np.prod(shape[:k + 1])), int(np.prod(shape[k + 1:]))) for k in range(d - 1)] + [1]
+        st = {'k': 't', 'N': shape, 'R': R, 'dt': dt, 'fam': 'int' if fam == 'lowrank_int' else 'gauss'}
+        cs = cores_for(st, 'lr', salt)
+        t = cs[0].numpy()
+        for c in cs[1:]:
+            t = np.tensordot(t, c.numpy(), axes=([t.ndim - 1], [0]))
+        a = t.reshape(shape)
+    elif fam == 'decay':
+        a = np.zeros(shape, dtype=np.complex128 if cplx else np.float64)
+        for k in range(6):
+            a = a + (0.05 ** k) * rank1([rvec(n) / np.sqrt(n) for n in shape])
+    elif fam == 'flat':
+        # every singular value of the first unfolding is exactly 1 (ties)
+        n1 = shape[0]
+        rest = numel // n1
+        if n1 <= rest:
+            a = np.eye(n1, rest).reshape(shape)
+        else:
+            a = np.eye(n1, rest).reshape(shape)
+    elif fam == 'flat2':
+        # Kronecker delta pairs: singular values of several unfoldings are equal
+        a = np.zeros(shape)
+        for idx in np.ndindex(*shape):
+            if all(idx[i] % 2 == idx[(i + 1) % d] % 2 for i in range(0, d - 1, 2)):
+                a[idx] = 1.0
+    elif fam == 'saturating':
+        delta = 1e-3
+        us, vs = [], []
+        for n in shape:
+            if n >= 2:
+                q = _orth(rng, n, 2, cplx)
+                us.append(q[:, 0])
+                vs.append(q[:, 1])
+            else:
+                us.append(np.ones(1))
+                vs.append(None)
+        a = rank1(us)
+        for k in range(d - 1):
+            if vs[k] is not None and vs[k + 1] is not None:
+                f = list(us)
+                f[k] = vs[k]
+                f[k + 1] = vs[k + 1]
+                a = a + delta * rank1(f)
+    else:
+        raise KeyError(fam)
+    return torch.tensor(np.ascontiguousarray(a), dtype=DT[dt])
